@@ -34,7 +34,7 @@ def projection(obs, A, norm):
 def run(tier, seed):
     return st.run_structural(
         "C09", tier, seed, "ZeepVerif.Props.C09", "ZeepVerif/Audit/C09.lean",
-        [("gencollide", 250, 6000), ("gen", 80, 2000), ("gentopo", 150, 3000)], oracle, projection, CHECKER, extra_props=[('ZeepVerif.Props.C09Read', 'ZeepVerif/Audit/C09Read.lean'), ('ZeepVerif.Props.C09All', 'ZeepVerif/Audit/C09All.lean'), ('ZeepVerif.Props.C09Denote', 'ZeepVerif/Audit/C09Denote.lean')], extra=st.refinement_coverage,
+        [("gencollide", 250, 6000), ("gen", 80, 2000), ("gentopo", 150, 3000)], oracle, projection, CHECKER, extra_props=[('ZeepVerif.Props.C09Read', 'ZeepVerif/Audit/C09Read.lean'), ('ZeepVerif.Props.C09All', 'ZeepVerif/Audit/C09All.lean'), ('ZeepVerif.Props.C09Denote', 'ZeepVerif/Audit/C09Denote.lean'), ('ZeepVerif.Props.C09Ref', 'ZeepVerif/Audit/C09Ref.lean')], extra=st.refinement_coverage,
         note_assumptions=["the 'collide' profile draws all names from ten words (incl. int, date, long, boolean), so local names are reused across namespaces, "
                           "kinds (type, global element, local element, attribute) and files; every file binds its own namespace to the prefix tns",
                           "message parts are covered by C05's WSDL stream"],
